@@ -339,6 +339,21 @@ fn padded_total(glyphs: &[Vec<u8>], short: bool) -> usize {
 
 // ------------------------------------------------------------------ container monitor (C06)
 
+/// The sfnt checksum from the OpenType specification (sum of big-endian u32 words, the last word zero
+/// padded), written here so that the monitor does not depend on the library's implementation.
+pub fn sfnt_checksum(b: &[u8]) -> u32 {
+    let mut sum = 0u32;
+    let mut i = 0;
+    while i < b.len() {
+        let mut w = [0u8; 4];
+        let n = (b.len() - i).min(4);
+        w[..n].copy_from_slice(&b[i..i + n]);
+        sum = sum.wrapping_add(u32::from_be_bytes(w));
+        i += 4;
+    }
+    sum
+}
+
 pub fn check_container(bytes: &[u8]) -> Result<(), String> {
     let f = FontRef::new(bytes).map_err(|e| format!("does not open: {e}"))?;
     let recs = f.table_directory.table_records();
@@ -368,7 +383,7 @@ pub fn check_container(bytes: &[u8]) -> Result<(), String> {
         if r.tag() == Tag::new(b"head") && data.len() >= 12 {
             data[8..12].fill(0);
         }
-        let sum = read_fonts::tables::compute_checksum(&data);
+        let sum = sfnt_checksum(&data);
         if sum != r.checksum() {
             return Err(format!("directory checksum of {} is {:08x}, table sums to {:08x}", r.tag(), r.checksum(), sum));
         }
@@ -382,7 +397,7 @@ pub fn check_container(bytes: &[u8]) -> Result<(), String> {
     }
     if let Some(h) = f.table_data(Tag::new(b"head")) {
         if h.len() >= 12 {
-            let total = read_fonts::tables::compute_checksum(bytes);
+            let total = sfnt_checksum(bytes);
             if total != 0xB1B0AFBA {
                 return Err(format!("whole-file checksum is {total:08x}"));
             }
